@@ -1300,3 +1300,29 @@ package mcp
 //@   ensures @settled-version-is-offered-and-modern result.1 == nil ==> result.0 != nil && at(answered, has(offered, now(result.0.ProtocolVersion))) && !legacy(result.0.ProtocolVersion)
 //@   ensures @requested-version-wins-when-offered result.1 == nil && at(answered, has(offered, wanted)) ==> result.0.ProtocolVersion == wanted
 //@   ensures @otherwise-an-sdk-version result.1 == nil && !at(answered, has(offered, wanted)) ==> sdkSupports(result.0.ProtocolVersion)
+
+// C19 (required members are present and non-null): the list arrays the server and client put into results are never
+// nil, even when there is nothing to list - one item per listed feature, in order.
+//@ func (*Server).listPrompts$1 [C19]
+//@   requires res != nil
+//@   modifies res.Prompts, allElems("*Prompt")
+//@   ensures @list-array-is-never-null res.Prompts != nil && len(res.Prompts) == len(prompts)
+//@   loop 1: invariant @one-item-per-feature res.Prompts != nil && len(res.Prompts) == $idx
+//@ func (*Server).listTools$1 [C19]
+//@   requires res != nil
+//@   modifies res.Tools, allElems("*Tool")
+//@   ensures @list-array-is-never-null res.Tools != nil && len(res.Tools) == len(tools)
+//@   loop 1: invariant @one-item-per-feature res.Tools != nil && len(res.Tools) == $idx
+//@ func (*Server).listResources$1 [C19]
+//@   requires res != nil
+//@   modifies res.Resources, allElems("*Resource")
+//@   ensures @list-array-is-never-null res.Resources != nil && len(res.Resources) == len(resources)
+//@   loop 1: invariant @one-item-per-feature res.Resources != nil && len(res.Resources) == $idx
+//@ func (*Server).listResourceTemplates$1 [C19]
+//@   requires res != nil
+//@   modifies res.ResourceTemplates, allElems("*ResourceTemplate")
+//@   ensures @list-array-is-never-null res.ResourceTemplates != nil && len(res.ResourceTemplates) == len(rts)
+//@   loop 1: invariant @one-item-per-feature res.ResourceTemplates != nil && len(res.ResourceTemplates) == $idx
+//@ func (*Client).listRoots [C19]
+//@   modifies *
+//@   ensures @list-array-is-never-null result.1 == nil && result.0 != nil && result.0.Roots != nil
